@@ -286,6 +286,35 @@ class Scenario(apiworld.ApiWorld):
         extra = self.notified[n1:]
         if extra:
             return self._v("unchanged-refresh-is-silent", f"a refresh that returned unchanged data notified {extra[:3]}")
+        v = self.step_check()
+        if v:
+            return v
+        # steady state after whatever happened: for the next 1000 s the client must behave like a healthy one -
+        # version requests every 300 s, (AT4) a group status request 300 s after each group status, nothing else,
+        # the connection stays up and the model stays equal to the console
+        # (a heartbeat request may have gone unanswered during the script: the console volunteers its version
+        # once, which counts as a response, so that no reset is owed any more)
+        self.console.send_raw(self.console.version_frame())
+        L.settle()
+        t0 = L.time()
+        n0 = len(self.console.requests)
+        c0 = len(self.net.conns)
+        L.run_until(t0 + 1000.0)
+        later = [(round(r[0] - t0, 6), r[2]) for r in self.console.requests[n0:]]
+        vers = [t for t, k in later if k == "req-version"]
+        if len(vers) < 3 or any(abs((b - a) - 300.0) > 1e-6 for a, b in zip(vers, vers[1:])):
+            return self._v("steady-state-heartbeat", f"version requests during 1000 s of healthy idle time at {vers} (expected every 300 s)")
+        polls = [t for t, k in later if k == "req-zone-status"]
+        if self.gen == 4:
+            if len(polls) < 3 or any(abs((b - a) - 300.0) > 1e-6 for a, b in zip(polls, polls[1:])):
+                return self._v("steady-state-poll", f"group status requests during 1000 s of healthy idle time at {polls} (expected every 300 s)")
+        elif polls:
+            return self._v("no-poll-on-at5", f"AirTouch 5 client polled zone status at {polls}")
+        other = [(t, k) for t, k in later if k not in ("req-version", "req-zone-status")]
+        if other:
+            return self._v("steady-state-quiet", f"unexpected requests during healthy idle time: {other[:3]}")
+        if len(self.net.conns) != c0:
+            return self._v("steady-state-connection", "the connection was reset during healthy idle time")
         return self.step_check()
 
     def fp_extra(self):
